@@ -13,12 +13,14 @@ git -C /repo worktree add -q --detach "$S" HEAD || exit 3
 cd "$S"
 export CARGO_NET_OFFLINE=true CARGO_TARGET_DIR="$S/target"
 demo_names=$(grep '^+++ b/' "$D/demo.diff" | sed 's#+++ b/##')
+FEAT="--features fusedev,virtiofs,async-io,persist"
 run_demo() {
   # demos are integration tests under tests/ or unit tests; run the whole suite filtered by the
-  # test files the demo adds, with all features so async demos compile
-  out=$(cargo test --offline --features fusedev,virtiofs,async-io,persist $(for f in $demo_names; do case "$f" in tests/*.rs) echo "--test $(basename "$f" .rs)";; esac; done) 2>&1 | cat)
+  # test files the demo adds, with all features so async demos compile (a demo that is compiled
+  # out under async-io is run with the default features instead, see below)
+  out=$(cargo test --offline $FEAT $(for f in $demo_names; do case "$f" in tests/*.rs) echo "--test $(basename "$f" .rs)";; esac; done) 2>&1 | cat)
   if [ -z "$(for f in $demo_names; do case "$f" in tests/*.rs) echo x;; esac; done)" ]; then
-    out=$(cargo test --offline --features fusedev,virtiofs,async-io,persist --lib 2>&1 | cat)
+    out=$(cargo test --offline $FEAT --lib 2>&1 | cat)
   fi
   echo "$out" | grep -q 'test result: FAILED\|error\[' && echo FAIL || { echo "$out" | grep -q 'test result: ok' && echo PASS || echo UNKNOWN; }
 }
@@ -28,6 +30,7 @@ b2=$(cargo build --offline --features fusedev,virtiofs,async-io,persist 2>&1 | g
 suite=$(cargo test --workspace --no-fail-fast --offline 2>&1 | cat | grep '^test result' | head -1)
 git apply "$D/demo.diff" || { echo "CONFIRM $D demo-does-not-apply"; exit 5; }
 with=$(run_demo)
+if [ "$with" = PASS ]; then FEAT=""; with=$(run_demo); fi
 git apply -R "$D/patch.diff"
 without=$(run_demo)
 echo "CONFIRM $(basename $D) build_errors=$b1/$b2 suite=[$suite] demo_with_patch=$with demo_without_patch=$without"
